@@ -1,11 +1,12 @@
 #!/bin/sh
-# builds the extracted model + driver into ocaml/_build/driver
+# builds the extracted models + drivers into ocaml/_build/{driver,sldriver}
 set -e
 cd "$(dirname "$0")"
 mkdir -p _build
-cp extracted/*.ml extracted/*.mli driver.ml _build/
+cp extracted/*.ml extracted/*.mli driver.ml sldriver.ml _build/
 cd _build
-MODS="Datatypes BinNums Nat PeanoNat BinPos BinNat List Scope Engine"
+MODS="Datatypes Bool BinNums Nat PeanoNat BinPos BinNat Ascii String List Scope Engine SplitLine"
 ALL=""
 for m in $MODS; do if [ -f $m.ml ]; then ALL="$ALL $m.mli $m.ml"; fi; done
 ocamlfind ocamlopt -w -a -o driver $ALL driver.ml
+ocamlfind ocamlopt -w -a -o sldriver $ALL sldriver.ml
